@@ -1,12 +1,239 @@
-"""C16 -- network views round-trip exactly (sidecar contracts)."""
+"""C16 -- network views round-trip exactly (sidecar contracts).
+
+Proved here: the bipartite exporter `hypergraph_to_bipartite` (string ids, default prefixes, stoichiometry and roles on, isolated species
+kept, molecule labels off; `include_edge_id_attr` symbolic) returns a fresh directed graph that IS the bipartite view of the network: one
+species node per species and one reaction node per reaction with exactly the documented attributes, an arc species->reaction iff the
+species is a reactant (with its coefficient and role), reaction->species iff it is a product, and nothing else (`is_view`).  The two
+nested helpers `add_sp_node` / `add_rxn_node` are verified on their own (closure variables as parameters) and used through their
+contracts.  Everything else of the property (importer, reaction strings, species graph, other flag combinations) is bounded: the twin."""
 from pyvc.rt import *  # noqa: F401,F403
+from contracts.C15 import wf, owned, occurs_r, occurs_p, R, P, norm_of, side_ok, support, not_in_use, implies_side, empty_input, stoich_is  # noqa: F401
 
 PROPERTY = "C16"
-RX = "synkit/CRN/Hypergraph/rxn.py"
+USES_NX = True
+INCLUDE = ["C15"]
+CV = "synkit/CRN/Hypergraph/conversion.py"
 CLASSES = {}
-FUNCTIONS = {}
-# no function of this property is under a discharged contract: the check is the bounded twin only and says so in its level text
-# (a vacuous twin -- zero cases -- is still reported as a broken check)
-BOUNDED_ONLY = True
-TRUSTED = []
-ASSUMPTIONS = ["bounded only: see contracts/C16_exporter_wip.py for the unfinished exporter contract (not part of any check)"]
+TRUSTED = ["A-nx-graph (DiGraph: add_node / add_edge / has_node / has_edge / attribute views)", "A-builtins (sorted, dict.items)",
+           "C15 contracts (wf and the reading helpers R, P, occurs_r, occurs_p) -- verified under C15"]
+ASSUMPTIONS = ["A-fmt: the node-id formatters f'S:{s}' and f'R:{e}' are injective and their ranges are disjoint (true for string "
+               "concatenation with two distinct non-empty prefixes of equal length); stated as AXIOMS of this file",
+               "flag combinations other than the contracted one (integer ids, prefix None, include_mol, include_stoich / include_role off, "
+               "isolated species dropped) are covered by the twin only",
+               "the importer bipartite_to_hypergraph, reaction strings and the species graph are bounded (twin) only"]
+NOT_APPLICABLE_CLAUSES = []
+AXIOMS = [
+    "forall(('str', 'str'), lambda a, b: implies(f'S:{a}' == f'S:{b}', a == b))",
+    "forall(('str', 'str'), lambda a, b: implies(f'R:{a}' == f'R:{b}', a == b))",
+    "forall(('str', 'str'), lambda a, b: f'S:{a}' != f'R:{b}')",
+]
+
+
+def sp(s):
+    return f"S:{s}"
+
+
+def rx(e):
+    return f"R:{e}"
+
+
+def sp_attrs_ok(G, s):
+    return G.nodes[sp(s)] == {"bipartite": 0, "label": s, "kind": "species"}
+
+
+def sp_ok(species_map, G):
+    """every registered species is mapped to its node id, the node exists with the species attributes; species-shaped nodes are registered"""
+    return forall(species_map, lambda s: same(species_map[s], sp(s))) \
+        and forall(species_map, lambda s: G.has_node(sp(s))) \
+        and forall(species_map, lambda s: sp_attrs_ok(G, s)) \
+        and forall('str', lambda t: implies(G.has_node(sp(t)), t in species_map))
+
+
+def view_nodes(G, H, E, with_eid):
+    """species nodes for every species, reaction nodes exactly for the reactions in E, with their attributes"""
+    return forall(H.species, lambda s: G.has_node(sp(s)) and sp_attrs_ok(G, s)) \
+        and forall(E, lambda e: G.has_node(rx(e)) and G.nodes[rx(e)] == rx_attrs(e, H.edges[e].rule, with_eid)) \
+        and forall(G.nodes, lambda n: exists(H.species, lambda s: same(n, sp(s))) or exists(E, lambda e: same(n, rx(e))))
+
+
+def view_arcs(G, H, E):
+    """arc species->reaction iff reactant (stoich, role), reaction->species iff product, for the reactions in E; no other arcs"""
+    return forall((H.species, E), lambda s, e: G.has_edge(sp(s), rx(e)) == occurs_r(H, e, s)
+                  and G.has_edge(rx(e), sp(s)) == occurs_p(H, e, s)) \
+        and forall((H.species, E), lambda s, e: ((not occurs_r(H, e, s)) or G[sp(s)][rx(e)] == {"stoich": R(H, e, s), "role": "reactant"})
+                   and ((not occurs_p(H, e, s)) or G[rx(e)][sp(s)] == {"stoich": P(H, e, s), "role": "product"})) \
+        and forall(G.edges, lambda u, v: exists((H.species, E), lambda s, e: (same(u, sp(s)) and same(v, rx(e)))
+                                                 or (same(u, rx(e)) and same(v, sp(s)))))
+
+
+def is_view(G, H, with_eid):
+    """G is the directed bipartite species/reaction view of the network H (string ids, default prefixes, stoichiometry and roles on)"""
+    return view_nodes(G, H, keys(H.edges), with_eid) and view_arcs(G, H, keys(H.edges))
+
+
+def map_full(species_map, H):
+    return forall('str', lambda t: (t in species_map) == (t in H.species))
+
+
+def rx_attrs(eid, rule, with_eid):
+    return {"bipartite": 1, "label": rule, "kind": "reaction", "edge_id": eid} if with_eid else {"bipartite": 1, "label": rule, "kind": "reaction"}
+
+
+FUNCTIONS = {
+    CV + "::hypergraph_to_bipartite.add_rxn_node": {
+        "closure": {"G": "obj:DiGraph", "integer_ids": "const:False", "reaction_prefix": "const:'R:'", "next_id": "int", "reaction_val": "const:1",
+                    "include_edge_id_attr": "bool", "make_rxn_attrs": "func"},
+        "params": {"eid": "str", "rule": "str"},
+        "returns": "any",
+        "requires": ["not G.has_node(rx(eid))"],
+        "modifies": ["G.nodes", "G.nattr"],
+        "ensures": [
+            "same(result, rx(eid))",
+            "forall('any', lambda n: G.has_node(n) == (old(G.has_node(n)) or same(n, rx(eid))))",
+            "G.nodes[rx(eid)] == rx_attrs(eid, rule, include_edge_id_attr)",
+            "forall(old(set(G.nodes)), lambda n: same(G.nodes[n], old(G.nodes[n])))",
+            "forall(('any', 'any'), lambda a, b: G.has_edge(a, b) == old(G.has_edge(a, b)))",
+            "forall('any', lambda a: not G.has_edge(a, rx(eid)) and not G.has_edge(rx(eid), a))",
+        ],
+    },
+    CV + "::hypergraph_to_bipartite.add_sp_node": {
+        "closure": {"species_map": "dict[str,any]", "G": "obj:DiGraph", "integer_ids": "const:False", "species_prefix": "const:'S:'",
+                    "next_id": "int", "species_val": "const:0", "include_mol": "const:False", "species_to_mol": "const:None", "make_sp_attrs": "func"},
+        "params": {"s": "str"},
+        "returns": "any",
+        "requires": ["sp_ok(species_map, G)"],
+        "modifies": ["G.nodes", "G.nattr"], "mutates": ["species_map"],
+        "ensures": [
+            "same(result, sp(s))",
+            "sp_ok(species_map, G)",
+            "s in species_map",
+            "forall('str', lambda t: (t in species_map) == (old(t in species_map) or t == s))",
+            "forall('any', lambda n: G.has_node(n) == (old(G.has_node(n)) or same(n, sp(s))))",
+            "forall(old(set(G.nodes)), lambda n: same(G.nodes[n], old(G.nodes[n])))",
+            "forall(('any', 'any'), lambda a, b: G.has_edge(a, b) == old(G.has_edge(a, b)))",
+        ],
+    },
+    CV + "::hypergraph_to_bipartite": {
+        "params": {"H": "obj:CRNHyperGraph", "species_prefix": "const:'S:'", "reaction_prefix": "const:'R:'",
+                   "bipartite_values": "const:(0, 1)", "include_stoich": "const:True", "include_role": "const:True",
+                   "include_isolated_species": "const:True", "integer_ids": "const:False", "include_edge_id_attr": "bool",
+                   "include_mol": "const:False"},
+        "vars": {"species_map": "dict[str,any]", "seen": "set[str]"},
+        "returns": "obj:DiGraph",
+        "requires": ["wf(H)"],
+        "modifies": [],
+        "ensures": ["is_fresh(result)", "is_view(result, H, include_edge_id_attr)"],
+        "hints": ["forall(H.edges, lambda e: e in seen)", "forall(seen, lambda e: e in H.edges)"],
+        "loops": {
+            1: {"modifies": ["G.nodes", "G.nattr"],
+                "step_hints": ["s in species_map", "same(species_iter[done - 1], s)",
+                               "forall(range(done - 1), lambda j: at_iter(species_iter[j] in species_map))",
+                               "forall(range(done - 1), lambda j: species_iter[j] in species_map)"],
+                "inv": ["sp_ok(species_map, G)",
+                        "forall(species_map, lambda s: s in H.species)",
+                        "forall(range(done), lambda j: species_iter[j] in species_map)",
+                        "forall(G.nodes, lambda n: exists(species_map, lambda s: same(n, sp(s))))",
+                        "forall(('any', 'any'), lambda u, v: not G.has_edge(u, v))"]},
+            2: {"seq_as": "eids", "modifies": ["G.nodes", "G.nattr", "G.adj", "G.eattr"],
+                "ghost_init": ["seen = set()"], "ghost_step": ["seen.add(eid)"],
+                "step_hints": [
+                    "same(e, H.edges[eid])", "eid in H.edges", "eids[done - 1] == eid",
+                    "forall('str', lambda x: (x in seen) == (at_iter(x in seen) or x == eid))",
+                    "forall(range(done), lambda j: eids[j] in seen)",
+                    "forall(range(len(eids)), lambda j: implies(j >= done, eids[j] != eid))",
+                    "forall(seen, lambda e: forall(range(len(eids)), lambda j: implies(j >= done, eids[j] != e)))",
+                    "at_iter(eid not in seen)", "at_iter(forall(seen, lambda x: x != eid))", "at_iter(forall(H.species, lambda t: not same(sp(t), rx(eid))))",
+                    "at_iter(not G.has_node(rx(eid)))",
+                    # nodes: the old ones with their attributes, plus the reaction node
+                    "forall(at_iter(seen), lambda x: G.has_node(rx(x)) and same(G.nodes[rx(x)], at_iter(G.nodes[rx(x)])))",
+                    "forall(H.species, lambda t: G.has_node(sp(t)) and same(G.nodes[sp(t)], at_iter(G.nodes[sp(t)])))",
+                    # arcs among old nodes are untouched; the arcs of the new reaction node are exactly its reactants / products
+                    "forall(('any', 'any'), lambda a, b: implies(at_iter(G.has_edge(a, b)), G.has_edge(a, b) and same(G[a][b], at_iter(G[a][b]))))",
+                    "forall(G.edges, lambda a, b: at_iter(G.has_edge(a, b)) or same(a, rx(eid)) or same(b, rx(eid)))",
+                    "forall(H.edges[eid].reactants.data, lambda t: t in H.species and G.has_edge(sp(t), rx(eid)))",
+                    "forall(H.edges[eid].products.data, lambda t: t in H.species and G.has_edge(rx(eid), sp(t)))",
+                    "forall('any', lambda a: at_iter(not G.has_edge(a, rx(eid)) and not G.has_edge(rx(eid), a)))",
+                    "forall(H.species, lambda t: implies(G.has_edge(sp(t), rx(eid)), occurs_r(H, eid, t)))",
+                    "forall(H.species, lambda t: implies(G.has_edge(rx(eid), sp(t)), occurs_p(H, eid, t)))",
+                    "forall(G.nodes, lambda n: at_iter(G.has_node(n)) or same(n, rx(eid)))",
+                    "forall(H.edges[eid].reactants.data, lambda t: G[sp(t)][rx(eid)] == {'stoich': R(H, eid, t), 'role': 'reactant'})",
+                    "forall(H.edges[eid].products.data, lambda t: G[rx(eid)][sp(t)] == {'stoich': P(H, eid, t), 'role': 'product'})",
+                    "forall((H.species, at_iter(seen)), lambda t, x: implies(occurs_r(H, x, t), same(G[sp(t)][rx(x)], at_iter(G[sp(t)][rx(x)]))))",
+                    "forall((H.species, at_iter(seen)), lambda t, x: implies(occurs_p(H, x, t), same(G[rx(x)][sp(t)], at_iter(G[rx(x)][sp(t)]))))",
+                    "forall(G.edges, lambda a, b: at_iter(G.has_edge(a, b)) or (same(b, rx(eid)) and exists(H.species, lambda t: same(a, sp(t)))) "
+                    "       or (same(a, rx(eid)) and exists(H.species, lambda t: same(b, sp(t)))))",
+                    "at_iter(forall(G.nodes, lambda n: exists(H.species, lambda s: same(n, sp(s))) or exists(seen, lambda e: same(n, rx(e)))))",
+                    "at_iter(forall((H.species, seen), lambda s, e: ((not occurs_r(H, e, s)) or G[sp(s)][rx(e)] == {'stoich': R(H, e, s), 'role': 'reactant'})"
+                    "        and ((not occurs_p(H, e, s)) or G[rx(e)][sp(s)] == {'stoich': P(H, e, s), 'role': 'product'})))",
+                    "forall((H.species, at_iter(seen)), lambda t, x: G.has_edge(sp(t), rx(x)) == at_iter(G.has_edge(sp(t), rx(x))))",
+                    "forall((H.species, at_iter(seen)), lambda t, x: G.has_edge(rx(x), sp(t)) == at_iter(G.has_edge(rx(x), sp(t))))",
+                ],
+                "inv": ["map_full(species_map, H)", "sp_ok(species_map, G)",
+                        "forall(range(done), lambda j: eids[j] in seen)",
+                        "forall(seen, lambda e: forall(range(len(eids)), lambda j: implies(j >= done, eids[j] != e)))",
+                        "forall(seen, lambda e: e in H.edges)",
+                        "forall(range(len(eids)), lambda j: implies(j >= done, not G.has_node(rx(eids[j]))))",
+                        {"inv": "view_nodes(G, H, seen, include_edge_id_attr)",
+                         "using": ["forall('str', lambda x: (x in seen) == (at_iter(x in seen) or x == eid))",
+                                   "forall(G.nodes, lambda n: at_iter(G.has_node(n)) or same(n, rx(eid)))",
+                                   "at_iter(forall(G.nodes, lambda n: exists(H.species, lambda s: same(n, sp(s))) or exists(seen, lambda e: same(n, rx(e)))))"]},
+                        {"inv": "view_arcs(G, H, seen)",
+                         "using": ["forall('str', lambda x: (x in seen) == (at_iter(x in seen) or x == eid))",
+                                   "forall(H.edges[eid].reactants.data, lambda t: G[sp(t)][rx(eid)] == {'stoich': R(H, eid, t), 'role': 'reactant'})",
+                                   "forall(H.edges[eid].products.data, lambda t: G[rx(eid)][sp(t)] == {'stoich': P(H, eid, t), 'role': 'product'})",
+                                   "forall((H.species, at_iter(seen)), lambda t, x: implies(occurs_r(H, x, t), same(G[sp(t)][rx(x)], at_iter(G[sp(t)][rx(x)]))))",
+                                   "forall((H.species, at_iter(seen)), lambda t, x: implies(occurs_p(H, x, t), same(G[rx(x)][sp(t)], at_iter(G[rx(x)][sp(t)]))))",
+                                   "at_iter(forall((H.species, seen), lambda s, e: ((not occurs_r(H, e, s)) or G[sp(s)][rx(e)] == {'stoich': R(H, e, s), 'role': 'reactant'})"
+                                   "        and ((not occurs_p(H, e, s)) or G[rx(e)][sp(s)] == {'stoich': P(H, e, s), 'role': 'product'})))"]}]},
+            3: {"modifies": ["G.nodes", "G.nattr", "G.adj", "G.eattr"],
+                "step_hints": ["same(e, H.edges[eid])", "s in H.edges[eid].reactants.data", "c == R(H, eid, s)", "s in H.species",
+                               "at_iter(s in species_map)", "at_iter(G.has_node(sp(s)))", "same(u, sp(s))",
+                               "G.has_node(sp(s)) and G.has_node(rx(eid))",
+                               "forall('any', lambda n: implies(at_iter(G.has_node(n)), G.has_node(n)))",
+                               "forall(at_iter(set(G.nodes)), lambda n: same(G.nodes[n], at_iter(G.nodes[n])))",
+                               "forall(species_map, lambda t: at_iter(t in species_map))",
+                               "forall(species_map, lambda t: at_iter(G.has_node(sp(t))))",
+                               "G.has_edge(sp(s), rx(eid))", "G[sp(s)][rx(eid)] == {'stoich': R(H, eid, s), 'role': 'reactant'}"],
+                "inv": ["map_full(species_map, H)", "sp_ok(species_map, G)", "same(rnode, rx(eid))", "same(e, H.edges[eid])",
+                        "forall('any', lambda n: implies(at_iter(G.has_node(n)), G.has_node(n)))", "G.has_node(rx(eid))",
+                        "forall(G.nodes, lambda n: at_iter(G.has_node(n)) or same(n, rx(eid)))",
+                        "forall(at_iter(set(G.nodes)), lambda n: same(G.nodes[n], at_iter(G.nodes[n])))",
+                        "G.nodes[rx(eid)] == rx_attrs(eid, H.edges[eid].rule, include_edge_id_attr)",
+                        "forall(('any', 'any'), lambda u, v: implies(at_iter(G.has_edge(u, v)), G.has_edge(u, v)))",
+                        "forall(done, lambda s: G.has_edge(sp(s), rx(eid)) and G[sp(s)][rx(eid)] == {'stoich': R(H, eid, s), 'role': 'reactant'})",
+                        "forall(G.edges, lambda u, v: at_iter(G.has_edge(u, v)) or (same(v, rx(eid)) and exists(done, lambda s: same(u, sp(s)))))",
+                        "forall(H.edges[eid].reactants.data, lambda s2: implies(s2 not in done, not G.has_edge(sp(s2), rx(eid))))",
+                        "forall(at_iter(set(G.edges)), lambda u, v: same(G[u][v], at_iter(G[u][v])))",
+                        ]},
+            4: {"modifies": ["G.nodes", "G.nattr", "G.adj", "G.eattr"],
+                "step_hints": ["same(e, H.edges[eid])", "s in H.edges[eid].products.data", "c == P(H, eid, s)", "s in H.species",
+                               "at_iter(s in species_map)", "at_iter(G.has_node(sp(s)))", "same(v, sp(s))",
+                               "G.has_node(sp(s)) and G.has_node(rx(eid))",
+                               "forall('any', lambda n: implies(at_iter(G.has_node(n)), G.has_node(n)))",
+                               "forall(at_iter(set(G.nodes)), lambda n: same(G.nodes[n], at_iter(G.nodes[n])))",
+                               "forall(species_map, lambda t: at_iter(t in species_map))",
+                               "forall(species_map, lambda t: at_iter(G.has_node(sp(t))))",
+                               "at_iter(not G.has_edge(rx(eid), sp(s)))",
+                               "forall(at_iter(set(G.edges)), lambda a, b: G.has_edge(a, b))",
+                               "forall(at_iter(set(G.edges)), lambda a, b: same(G[a][b], at_iter(G[a][b])))",
+                               "forall(H.edges[eid].reactants.data, lambda s2: at_iter(G.has_edge(sp(s2), rx(eid))))",
+                               "forall(H.edges[eid].reactants.data, lambda s2: G.has_edge(sp(s2), rx(eid)))",
+                               "forall(H.edges[eid].reactants.data, lambda s2: same(G[sp(s2)][rx(eid)], at_iter(G[sp(s2)][rx(eid)])))",
+                               "at_iter(forall(H.edges[eid].reactants.data, lambda s: G.has_edge(sp(s), rx(eid)) and G[sp(s)][rx(eid)] == {'stoich': R(H, eid, s), 'role': 'reactant'}))",
+                               "G.has_edge(rx(eid), sp(s))", "G[rx(eid)][sp(s)] == {'stoich': P(H, eid, s), 'role': 'product'}"],
+                "inv": ["map_full(species_map, H)", "sp_ok(species_map, G)", "same(rnode, rx(eid))", "same(e, H.edges[eid])",
+                        "forall('any', lambda n: implies(at_iter(G.has_node(n)), G.has_node(n)))", "G.has_node(rx(eid))",
+                        "forall(G.nodes, lambda n: at_iter(G.has_node(n)) or same(n, rx(eid)))",
+                        "forall(at_iter(set(G.nodes)), lambda n: same(G.nodes[n], at_iter(G.nodes[n])))",
+                        "G.nodes[rx(eid)] == rx_attrs(eid, H.edges[eid].rule, include_edge_id_attr)",
+                        "forall(('any', 'any'), lambda u, v: implies(at_iter(G.has_edge(u, v)), G.has_edge(u, v)))",
+                        "forall(H.edges[eid].reactants.data, lambda s: G.has_edge(sp(s), rx(eid)) and G[sp(s)][rx(eid)] == {'stoich': R(H, eid, s), 'role': 'reactant'})",
+                        "forall(done, lambda s: G.has_edge(rx(eid), sp(s)) and G[rx(eid)][sp(s)] == {'stoich': P(H, eid, s), 'role': 'product'})",
+                        "forall(G.edges, lambda u, v: at_iter(G.has_edge(u, v)) or (same(v, rx(eid)) and exists(H.edges[eid].reactants.data, lambda s: same(u, sp(s))))"
+                        "       or (same(u, rx(eid)) and exists(done, lambda s: same(v, sp(s)))))",
+                        "forall(H.edges[eid].products.data, lambda s2: implies(s2 not in done, not G.has_edge(rx(eid), sp(s2))))",
+                        "forall(at_iter(set(G.edges)), lambda u, v: same(G[u][v], at_iter(G[u][v])))",
+                        ]},
+        },
+    },
+}
